@@ -85,3 +85,33 @@ def refused_calls(rng, h, directed=False, n=None):
         except Exception:
             refused += 1
     return refused
+
+
+def second_order(rng, h, directed=False):
+    """Returns (label, object) for a state that is observably the SAME hypergraph as h but reached through another
+    sequence of legal calls: a copy of a copy, or the same object after clear() and re-insertion of its content in
+    another order (node metadata, weights and hyperedge metadata restored through the public setters).  Whatever a
+    measure answered for h it must answer for this one; leftovers of the earlier life of the object (ids, memos,
+    registries that clear() forgot) show as a difference."""
+    if rng.random() < 0.4:
+        return "copy-of-copy", h.copy().copy()
+    nodes = {n: dict(h.get_node_metadata(n)) for n in h.get_nodes()}
+    edges = [(e, h.get_weight(e), dict(h.get_edge_metadata(e))) for e in h.get_edges()]
+    h.clear()
+    order = list(edges)
+    rng.shuffle(order)
+    ns = list(nodes)
+    rng.shuffle(ns)
+    half = ns[: len(ns) // 2]
+    if half:
+        h.add_nodes(half)
+    for e, w, md in order:
+        if directed:
+            e2 = (tuple(reversed(e[0])), tuple(reversed(e[1])))
+        else:
+            e2 = tuple(reversed(e))
+        h.add_edge(e2, weight=w if h.is_weighted() else None, metadata=md)
+    for n in ns:
+        h.add_node(n)
+        h.set_node_metadata(n, nodes[n])
+    return "cleared-and-rebuilt", h
